@@ -125,17 +125,20 @@ class CallMixin:
 
     def b_hasattr(self, ex, st, node, args, kwargs):
         o, a = args
-        if a.kind != "str":
-            raise Unsupported("hasattr with a dynamic name")
-        r = self.registry.hasattr_hook(self, st, o, a.py)
+        r = self.registry.hasattr_hook(self, st, o, a.py if a.kind == "str" else a.t)
         if r is not None:
             return r
+        if a.kind != "str":
+            raise Unsupported("hasattr with a dynamic name")
         return [(st, vbool(st.get("has:" + a.py, self.to_ref(st, o))))]
 
     def b_getattr(self, ex, st, node, args, kwargs):
         o, a = args[0], args[1]
         if a.kind != "str":
-            raise Unsupported("getattr with a dynamic name")
+            r = self.registry.attr_hook(self, st, o, a.t)
+            if r is None or len(args) == 3:
+                raise Unsupported("getattr with a dynamic name")
+            return r
         if len(args) == 3:
             r = self.registry.getattr_default_hook(self, st, o, a.py, args[2])
             if r is not None:
@@ -152,7 +155,10 @@ class CallMixin:
     def b_setattr(self, ex, st, node, args, kwargs):
         o, a, v = args
         if a.kind != "str":
-            raise Unsupported("setattr with a dynamic name")
+            r = self.registry.setattr_hook(self, st, o, a.t, v)
+            if r is None:
+                raise Unsupported("setattr with a dynamic name")
+            return r
         return self.store_attr(st, o, a.py, v)
 
     def b_dict(self, ex, st, node, args, kwargs):
@@ -340,7 +346,7 @@ class CallMixin:
             if not (isinstance(target, ast.Tuple) and len(target.elts) == 2):
                 raise Unsupported("items() target")
             return {target.elts[0].id: V("ref", k, self.registry.key_hint(src)), target.elts[1].id: V("ref", v)}, st.get("dord", src.t)
-        if src.kind == "ref" and src.py in ("list", "tuple", "dict_keys", "dict_values"):
+        if src.kind == "ref" and src.py in ("list", "tuple", "dict_keys", "dict_values", "classlist"):
             if src.py == "dict_values":
                 seq = st.get("dord", src.t)
                 e = z3.Select(st.get("dval", src.t), seq[j])
